@@ -41,7 +41,7 @@ def plan(tier, seed):
 
 
 def scenario(rng: random.Random) -> Dict[str, Any]:
-    n = rng.choice([1, 1, 2, 3])
+    n = rng.choice([1, 1, 2, 3]) if rng.random() < 0.93 else rng.choice([10, 14])   # many services: goodbye rounds of several datagrams
     svcs: List[Svc] = []
     share = rng.random() < 0.5
     for i in range(n):
@@ -199,7 +199,14 @@ def analyse(res: Result, sim: simnet.Sim, sc: Dict[str, Any], out: Dict[str, Any
             for e, m in goodbyes:
                 if e["t"] > U + 250 + 1.0:
                     viol("c08.goodbye_complete", "goodbye_late", "goodbye at U+%.1f ms" % (e["t"] - U), api=sc["api"])
-                zero = {R.ident_of_wire(r) for r in m.answers + m.additionals if r.ttl == 0}
+                # a goodbye round of many services is split over several datagrams sent in the same instant: the records of one
+                # service may be spread over two of them
+                zero = set()
+                for e2 in entries:
+                    if e2["mcast"] and abs(e2["t"] - e["t"]) <= 0.5:
+                        m2 = m if e2 is e else wire.parse(e2["data"], strict=True)
+                        if m2.is_response:
+                            zero |= {R.ident_of_wire(r) for r in m2.answers + m2.additionals if r.ttl == 0}
                 need = {s.srv(), s.txt()}
                 if not shared:
                     need |= s.addr_and_nsec()
